@@ -209,7 +209,15 @@ def _one(rng, kind, n):
     o["file_scheme"] = rng.choice(["simple", "simple", "hive", "drill"])
     if n > 300:
         o["page_size"] = rng.choice([None, 1000, 4096])
-    return spec, o
+    return spec, _cap_row_groups(spec, o)
+
+
+def _cap_row_groups(spec, o):
+    """at most ~64 row groups per dataset (a row group per row of an 8193-row frame costs minutes and adds nothing)"""
+    rgo, n = o["row_group_offsets"], spec["n"]
+    if isinstance(rgo, int) and rgo > 0 and n // rgo > 64:
+        o["row_group_offsets"] = n // 64 + 1
+    return o
 
 
 def gen_jobs(ctx):
@@ -231,7 +239,7 @@ def gen_jobs(ctx):
         spec = F.gen_spec(rng, n=rng.choice(sizes_small + ([257, 8193] if rng.random() < 0.1 else [])))
         o = rt.gen_opts(rng, spec)
         o["file_scheme"] = rng.choice(["simple", "simple", "hive", "drill"])
-        jobs.append((spec, o))
+        jobs.append((spec, _cap_row_groups(spec, o)))
     return jobs
 
 
